@@ -22,6 +22,7 @@ import (
 	"sort"
 	"strconv"
 	"strings"
+	"syscall"
 	"time"
 
 	"github.com/AdguardTeam/AdGuardHome/internal/filtering"
@@ -56,6 +57,9 @@ var otherTargets = []string{"safe/zz.txt", "safe/sub", "unsafe"}
 const cwdRel = "safe"
 
 const rootVar = "$R"
+
+// dataVar stands for the data directory of the instance under test.
+const dataVar = "$D"
 
 const baseURL = "http://127.0.0.1:1/base.txt"
 
@@ -257,7 +261,8 @@ func genLocs(root string, thorough bool, emit func(locT) bool) {
 	}
 	// stand-alone spellings
 	for _, s := range []string{"", " ", "/", ".", "..", "file://", "file:///", root, cwd, "a.txt\x00", cwd + "/a.txt\x00", cwd + "/a.txt\x00/../../unsafe/a.txt",
-		"~/a.txt", `\a.txt`, cwd + `/..\unsafe\a.txt`, `C:\a.txt`, "a.txt ", cwd + "/a.txt "} {
+		"~/a.txt", `\a.txt`, cwd + `/..\unsafe\a.txt`, `C:\a.txt`, "a.txt ", cwd + "/a.txt ",
+		dataVar + "/userfilters/u.txt", dataVar + "/u.txt"} {
 		add(s, "standalone", "", 0)
 	}
 	maxDev := 1
@@ -484,6 +489,12 @@ func (e *env) exec(cs *caseC) (o *obsT) {
 		return o
 	}
 	loc := e.sub(cs.Loc)
+	if strings.Contains(loc, dataVar) {
+		// A file inside the server's own data directory (no pattern names it).
+		loc = strings.ReplaceAll(loc, dataVar, dataDir)
+		_ = os.MkdirAll(filepath.Dir(loc), 0o755)
+		_ = os.WriteFile(loc, []byte("||canary-1.test^\n"), 0o644)
+	}
 	pats := make([]string, len(cs.Pats))
 	for i, p := range cs.Pats {
 		pats[i] = e.sub(p)
@@ -765,11 +776,104 @@ func (e *env) check(cs *caseC) {
 
 func jsonStr(v any) string { b, _ := json.Marshal(v); return string(b) }
 
+// fifoPass: "opens a local file only if ..." taken literally.  The location
+// of a list already in the configuration is a named pipe outside the patterns;
+// a refresh must not even open it.  Whether somebody holds the pipe open for
+// reading is observable without reading it: opening it for writing without
+// blocking succeeds exactly then.
+func (e *env) fifoPass() {
+	c := e.c
+	fifo := filepath.Join(e.root, "unsafe", "pipe")
+	if err := syscall.Mkfifo(fifo, 0o644); err != nil && !os.IsExist(err) {
+		c.Note("fifo_pass", "skipped: "+err.Error())
+		return
+	}
+	for _, white := range []bool{false, true} {
+		for _, entry := range []string{"refresh", "periodic"} {
+			e.n++
+			dataDir := filepath.Join(c.TmpDir, "d", "fifo"+strconv.Itoa(e.n))
+			if err := os.MkdirAll(filepath.Join(dataDir, "filters"), 0o755); err != nil {
+				c.EngineError(err.Error())
+				return
+			}
+			conf := &filtering.Config{DataDir: dataDir, SafeFSPatterns: []string{filepath.Join(e.root, "safe", "*")}, HTTPClient: e.client,
+				ConfigModified: func() {}, FilteringEnabled: true, ProtectionEnabled: true, FiltersUpdateIntervalHours: 1}
+			initial := []filtering.FilterYAML{{Enabled: true, URL: fifo, Name: "pipe", Filter: filtering.Filter{ID: 1}}}
+			if white {
+				conf.WhitelistFilters = initial
+			} else {
+				conf.Filters = initial
+			}
+			d, err := filtering.New(conf, nil)
+			if err != nil {
+				c.EngineError("filtering.New: " + err.Error())
+				return
+			}
+			d.VerifC17Prepare()
+			done := make(chan struct{})
+			go func() {
+				defer close(done)
+				defer func() { _ = recover() }()
+				if entry == "refresh" {
+					var o obsT
+					post(d.VerifC17Refresh, map[string]any{"whitelist": white}, &o)
+				} else {
+					d.VerifC17Periodic()
+				}
+			}()
+			opened := false
+			probe := func() {
+				if f, err := os.OpenFile(fifo, os.O_WRONLY|syscall.O_NONBLOCK, 0); err == nil {
+					opened = true
+					_ = f.Close() // the reader sees the end of the file and goes on
+				}
+			}
+			deadline := time.Now().Add(2 * time.Second)
+		wait:
+			for time.Now().Before(deadline) {
+				select {
+				case <-done:
+					break wait
+				default:
+				}
+				probe()
+				if opened {
+					break
+				}
+				time.Sleep(2 * time.Millisecond)
+			}
+			c.Count("evals", 1)
+			c.Count("fifo_probes", 1)
+			cs := caseC{PatName: "dir-star", Pats: []string{rootVar + "/safe/*"}, Loc: rootVar + "/unsafe/pipe", Entry: "fifo:" + entry, White: white, Class: "named-pipe", Cwd: rootVar + "/" + cwdRel}
+			stuck := false
+			select {
+			case <-done:
+			case <-time.After(5 * time.Second):
+				stuck = true
+			}
+			switch {
+			case opened:
+				c.Violation("file-outside-patterns-opened:"+entry, "the location of a configured list is a named pipe outside the safe patterns; during the "+entry+" refresh it was opened for reading (a writer could connect to it)", cs)
+			case stuck:
+				c.Violation("refresh-blocks-on-file-outside-patterns:"+entry, "the "+entry+" refresh of a list whose location is a named pipe outside the safe patterns does not return", cs)
+			}
+			if !stuck {
+				d.Close()
+			}
+			_ = os.RemoveAll(dataDir)
+		}
+	}
+	c.Distinct("nontrivial", "fifo")
+}
+
 func run(c *lib.Ctx) {
 	e, err := newEnv(c)
 	if err != nil {
 		c.EngineError(err.Error())
 		return
+	}
+	if c.ShardI == c.ShardN-1 {
+		e.fifoPass()
 	}
 	nLocs := 0
 	genLocs(e.root, !c.Quick(), func(locT) bool { nLocs++; return true })
@@ -825,6 +929,14 @@ func replay(c *lib.Ctx, raw json.RawMessage) string {
 	}
 	if cs.Entry == "" {
 		return "case is not replayable (tree-integrity violation); re-run the check"
+	}
+	if strings.HasPrefix(cs.Entry, "fifo:") {
+		before := c.NumViolationKeys()
+		e.fifoPass()
+		if c.NumViolationKeys() > before {
+			return "violation reproduced: a named pipe outside the safe patterns is opened by the refresh"
+		}
+		return ""
 	}
 	o := e.exec(&cs)
 	key, desc := e.judge(&cs, o)
